@@ -64,6 +64,8 @@ run plain_recover "$WORK/plain" 0
 run sw "$WORK/sw" 0
 run occ "$WORK/occ" 0
 run threads "$WORK/threads" 0 sort
+# C16: option records (`ksx`) and their stored form (`cfg`) across reopen
+run options "$WORK/options" 0
 
 # --- fjv oracle -----------------------------------------------------------------
 {
